@@ -28,7 +28,7 @@ PROP = {
              "of rectangle+polygons"),
     "assumptions": ["exact __int128 orientation/winding oracle in harness/common/geom.h is correct",
                     "sample points within 2 units of the input path, or within 2 units of the rectangle boundary, are not judged"],
-    "floor": _q(40000, 1000000),
+    "floor": _q(100000, 2500000),
     "must_count": _q(["samples_judged_inside", "samples_judged_outside", "polygons_simple", "polygons_selfint_parity_judged",
                       "inside_touching_checked", "outside_checked", "orientation_checked", "multi_path_calls"],
                      ["samples_judged_inside", "samples_judged_outside", "polygons_simple", "polygons_selfint_parity_judged",
@@ -37,6 +37,6 @@ PROP = {
     "jobs": [
         # address-space cap and a short watchdog: a defect in the clip loop that allocates without bound must end as a
         # crash/timeout report, not take the machine down (the monitors themselves need < 100 MB)
-        {"mon": "mon_c08", "cfg": "plain", "cases": _q(150000, 4500000), "prefix": ["prlimit", "--as=4000000000"]},
+        {"mon": "mon_c08", "cfg": "plain", "cases": _q(250000, 6000000), "prefix": ["prlimit", "--as=4000000000"]},
     ],
 }
